@@ -818,6 +818,29 @@ def _(v):
         if r:
             inlined.append((text, r[:200]))
     v.prove("unique_key_named_like_a_substance_or_time_with_constants_inlined", not inlined, detail=repr(inlined[:3]))
+    # the same for a name that sits deeper in the rate expression: the pre-exponential factor of an Arrhenius constant called 'A' (or 'B', 'time'),
+    # the constant scaled / divided / added up by the arithmetic of expressions. k = 1000*exp(-1200/T) (divided by 4, times 2, plus 5): refused, or
+    # the model with the stored 1000 (a free symbol of its own when constants are kept free) -- never the concentration as pre-exponential factor
+    import sympy as _sy
+    from chempy.kinetics.rates import Arrhenius
+    shapes = (("k", lambda a: MassAction(a), lambda k: k), ("k/4", lambda a: MassAction(a) / 4.0, lambda k: k / 4.0), ("2*k", lambda a: MassAction(a) * 2.0, lambda k: k * 2.0),
+              ("k+5", lambda a: MassAction(a + 5.0), lambda k: k + 5.0))
+    deep = []
+    for clash in ("A", "B", "time"):
+        for text, make, scaled in shapes:
+            try:
+                rs3 = ReactionSystem([Reaction({"A": 1}, {"B": 1}, make(Arrhenius([1e3, 1200.0], unique_keys=(clash, "Ea"))))], "A B", substance_factory=Substance)
+            except Exception as ex:
+                deep.append((clash, text, "set up: %r" % ex))
+                continue
+            rhs = lambda k, y: OrderedDict([("A", -scaled(k) * y["A"]), ("B", scaled(k) * y["A"])])
+            for label, build, want in (("get_odesys", lambda: get_odesys(rs3), lambda y, p: rhs(1e3 * _sy.exp(-1200.0 / p["temperature"]), y)),
+                                       ("get_odesys.free", lambda: get_odesys(rs3, include_params=False), lambda y, p: rhs(p[clash] * _sy.exp(-p["Ea"] / p["temperature"]), y)),
+                                       ("_create_odesys", lambda: _create_odesys(rs3, rates_kw=dict(backend=_sy)), lambda y, p: rhs(p[clash] * _sy.exp(-p["Ea"] / p["temperature"]), y))):
+                r = outcome(build, want)
+                if r:
+                    deep.append((clash, text, label, r[:200]))
+    v.prove("unique_key_at_any_depth_named_like_a_substance_or_time", not deep, detail=repr(deep[:3]))
     # a constant whose name is that of the TIME variable (whatever the builder calls it: 't', 'time', pyodesys' 'x'): the property-level statement is
     # 'the time symbol is different from every parameter and substance symbol and the rhs is -p*[A], or the call is refused'
     bad = []
@@ -1006,3 +1029,186 @@ def _(v):
     for label, build in (("alternative", lambda: _create_odesys(rs2)), ("main", lambda: get_odesys(rs2, include_params=False))):
         r = _native_mismatch(build, ["B", "A"], ["k", "k2"], lambda y, p, t: model(p["k"], p["k2"], y))
         v.prove("plain_names." + label, not r, detail=r)
+
+
+@harness("C04", "named_argument_with_an_expression_as_default", functions=[ODE + ":get_odesys", ODE + ":_create_odesys", "chempy.util._expr:Expr.arg", "chempy.reactionsystem:ReactionSystem.rates"], kind="data")
+def _(v):
+    """'substituting variables, or using the alternative builder, changes only which symbols are free, never the value of the right-hand side after
+    those symbols are bound', for a NAMED argument (unique key) whose stored default is itself an expression (a pre-exponential factor that depends
+    on the temperature, a constant wrapped by the arithmetic of expressions): while the name is not bound the default is the value; as soon as the
+    name is bound -- to a number or to another expression by a substitution, to a symbol by the alternative builder, to a number by the caller of
+    ReactionSystem.rates -- the bound value is the value, exactly as for a name whose default is a plain number.
+    2 A -> B, rate = k*[A]**2, d[A]/dt = -2*rate, d[B]/dt = rate; k = A_f*exp(-Ea/T) with the default A_f = 2 + T/100, Ea = 1200"""
+    import math
+    import sympy
+    from chempy.chemistry import Reaction
+    from chempy.reactionsystem import ReactionSystem
+    from chempy.kinetics.ode import get_odesys, _create_odesys
+    from chempy.kinetics.rates import MassAction, Arrhenius
+    from chempy.util._expr import create_Poly, Constant
+    TPoly = create_Poly("temperature")
+    mk = lambda param: ReactionSystem([Reaction({"A": 2}, {"B": 1}, param)], "A B")
+    two = lambda r: [-2 * r, r]
+    sy = dict(backend=sympy)
+    rs = mk(MassAction(Arrhenius([TPoly([2.0, 0.01]), 1200.0], unique_keys=("A_f", "Ea"))))
+    arrh = lambda A_f, Ea, p, y: two(A_f * sympy.exp(-Ea / p["temperature"]) * y["A"] ** 2)
+    r = _native_mismatch(lambda: get_odesys(rs), ["A", "B"], ["temperature"], lambda y, p, t: arrh(2.0 + 0.01 * p["temperature"], 1200.0, p, y))
+    v.prove("name_not_bound.the_default_expression_is_the_value", not r, detail=r)
+    r = _native_mismatch(lambda: get_odesys(rs, substitutions={"A_f": 7.0}), ["A", "B"], ["temperature"], lambda y, p, t: arrh(7.0, 1200.0, p, y))
+    v.prove("name_bound_to_a_number.inlined", not r, detail=r)
+    r = _native_mismatch(lambda: get_odesys(rs, substitutions={"A_f": 7.0}, include_params=False), ["A", "B"], ["temperature", "Ea"], lambda y, p, t: arrh(7.0, p["Ea"], p, y))
+    v.prove("name_bound_to_a_number.other_constants_free", not r, detail=r)
+    r = _native_mismatch(lambda: get_odesys(rs, substitutions={"A_f": TPoly([5.0, 0.5])}), ["A", "B"], ["temperature"], lambda y, p, t: arrh(5.0 + 0.5 * p["temperature"], 1200.0, p, y))
+    v.prove("name_bound_to_another_expression", not r, detail=r)
+    r = _native_mismatch(lambda: _create_odesys(rs, rates_kw=sy), ["A", "B"], ["A_f", "Ea", "temperature"], lambda y, p, t: arrh(p["A_f"], p["Ea"], p, y))
+    v.prove("alternative_builder.every_declared_name_is_the_symbol_of_the_rhs", not r, detail=r)
+    # the same for the one argument of a mass-action law: k named 'kf', stored as an expression that is a constant (what 'MassAction(3.0) * 1' style
+    # arithmetic leaves behind): rate = kf*[A]**2
+    rs_c = mk(MassAction([Constant(3.0)], unique_keys=("kf",)))
+    r = _native_mismatch(lambda: get_odesys(rs_c), ["A", "B"], [], lambda y, p, t: two(3.0 * y["A"] ** 2))
+    v.prove("mass_action_constant.not_bound", not r, detail=r)
+    r = _native_mismatch(lambda: get_odesys(rs_c, substitutions={"kf": 4.0}), ["A", "B"], [], lambda y, p, t: two(4.0 * y["A"] ** 2))
+    v.prove("mass_action_constant.bound_to_a_number", not r, detail=r)
+    r = _native_mismatch(lambda: _create_odesys(rs_c), ["A", "B"], ["kf"], lambda y, p, t: two(p["kf"] * y["A"] ** 2))
+    v.prove("mass_action_constant.alternative_builder", not r, detail=r)
+    # the vector of rates both builders are made of: [A] = 1.5, T = 300: k = 7*exp(-4) bound, (2 + 3)*exp(-4) by default; rate = k*2.25
+    try:
+        bad = []
+        for extra, k in (({"A_f": 7.0}, 7.0 * math.exp(-4.0)), ({}, 5.0 * math.exp(-4.0)), ({"A_f": 7.0, "Ea": 600.0}, 7.0 * math.exp(-2.0))):
+            got = rs.rates(dict({"A": 1.5, "B": 0.25, "temperature": 300.0}, **extra))
+            want = {"A": -2 * k * 2.25, "B": k * 2.25}
+            if set(got) != set(want) or not all(abs(float(got[s]) - want[s]) <= 1e-12 * abs(want[s]) for s in want):
+                bad.append((extra, dict(got), want))
+        v.prove("rates_with_the_name_among_the_variables", not bad, detail=repr(bad[:2]))
+    except Exception as ex:
+        v.prove("rates_with_the_name_among_the_variables", False, detail=repr(ex)[:300])
+
+
+class _Efficiency:
+    """k = k0*eff: a rate constant [1/time] scaled by a pure number (a quantum yield, a sticking probability, a mole fraction ...); the number is an
+    argument (with_argument) or a parameter key (with_key)"""
+
+    @staticmethod
+    def with_argument():
+        from chempy.util._expr import Expr
+
+        class Scaled(Expr):
+            argument_names = ("k0", "eff")
+
+            def args_dimensionality(self, **kwargs):
+                return ({"time": -1}, {})
+
+            def __call__(self, variables, backend=None, **kwargs):
+                k0, eff = self.all_args(variables, backend=backend, **kwargs)
+                return k0 * eff
+        return Scaled
+
+    @staticmethod
+    def with_key():
+        from chempy.util._expr import Expr
+
+        class ScaledBy(Expr):
+            argument_names = ("k0",)
+            parameter_keys = ("eff",)
+
+            def args_dimensionality(self, **kwargs):
+                return ({"time": -1},)
+
+            def __call__(self, variables, backend=None, **kwargs):
+                (k0,) = self.all_args(variables, backend=backend, **kwargs)
+                (eff,) = self.all_params(variables, backend=backend)
+                return k0 * eff
+        return ScaledBy
+
+
+@harness("C04", "get_odesys.unit_registry.pure_numbers_written_with_a_scale", functions=[ODE + ":get_odesys", ODE + ":get_odesys.<locals>.dydt", "chempy.util._expr:Expr.dedimensionalisation",
+                                                                                       "chempy.units:unitless_in_registry", "chempy.units:to_unitless"], kind="data")
+def _(v):
+    """'the right-hand side is N^T r as an identity in concentrations and free parameters', with a unit registry: every value that enters a rate
+    -- an argument of a rate expression, a value bound by a substitution or by the constants namespace, an argument of a substituted expression --
+    enters as its VALUE in registry units. A dimensionless value has no registry unit, its value is the pure number: 40 % is 0.4, 2 g/kg and
+    2 mM/M are 0.002, 90 degrees are pi/2, and 0.4 written as a plain float or as a dimensionless quantity is 0.4 -- whichever way it is written
+    the right-hand side is the same. A -> B, k = 3/s * eff in a registry that counts time in minutes: k = 180*eff per minute"""
+    import math
+    import sympy
+    from chempy.chemistry import Reaction
+    from chempy.reactionsystem import ReactionSystem
+    from chempy.kinetics.ode import get_odesys
+    from chempy.kinetics.rates import MassAction, Arrhenius, SinTemp
+    from chempy.units import SI_base_registry, default_units as u
+    try:
+        import quantities as pq
+        Scaled, ScaledBy = _Efficiency.with_argument(), _Efficiency.with_key()
+        reg = dict(SI_base_registry, time=u.minute)
+        mk = lambda param: ReactionSystem([Reaction({"A": 1}, {"B": 1}, param)], "A B")
+        ways = (("percent", 40 * u.percent, 0.4), ("mass_ratio", 2 * u.gram / u.kg, 0.002), ("concentration_ratio", 2 * u.millimolar / u.molar, 0.002),
+                ("plain_float", 0.4, 0.4), ("dimensionless_quantity", 0.4 * pq.dimensionless, 0.4))
+    except Exception as ex:
+        v.prove("set_up", False, detail=repr(ex)[:300])
+        return
+    for label, q, number in ways:
+        k = 180.0 * number
+        model = lambda y, p, t: [-k * y["A"], k * y["A"]]
+        builds = (("argument_of_a_rate_expression", lambda: get_odesys(mk(MassAction(Scaled([3.0 / u.second, q]))), unit_registry=reg)),
+                  ("named_argument_bound_by_a_substitution", lambda: get_odesys(mk(MassAction(Scaled([3.0 / u.second, 0.1], unique_keys=("k0", "eff")))), unit_registry=reg, substitutions={"eff": q})),
+                  ("key_bound_by_a_substitution", lambda: get_odesys(mk(MassAction(ScaledBy([3.0 / u.second]))), unit_registry=reg, substitutions={"eff": q})),
+                  ("key_bound_by_the_namespace", lambda: get_odesys(mk(MassAction(ScaledBy([3.0 / u.second]))), unit_registry=reg, constants=_Constants(eff=q))))
+        for how, build in builds:
+            r = _native_mismatch(build, ["A", "B"], [], model, rtol=1e-12)
+            v.prove("%s.%s" % (how, label), not r, detail=r)
+    # an argument of a SUBSTITUTED expression: the temperature follows T(t) = 300 K + 10 K * sin(w*t + phase), w = 0.5/s = 30 per minute;
+    # k = 1000/s * exp(-2000 K / T) = 60000 per minute * exp(-2000/T(t)); the phase is an angle: 90 degrees = pi/2 (radians are the pure number)
+    rs = mk(MassAction(Arrhenius([1e3 / u.second, 2000.0 * u.kelvin])))
+    for label, phase, number in (("degrees", 90 * u.degree, math.pi / 2), ("radians", 0.5 * u.radian, 0.5), ("plain_float", 0.5, 0.5)):
+        def model(y, p, t):
+            k_t = 6e4 * sympy.exp(-2000.0 / (300.0 + 10.0 * sympy.sin(30.0 * t + number)))
+            return [-k_t * y["A"], k_t * y["A"]]
+        r = _native_mismatch(lambda: get_odesys(rs, unit_registry=reg, substitutions={"temperature": SinTemp([300 * u.kelvin, 10 * u.kelvin, 0.5 / u.second, phase])}),
+                             ["A", "B"], [], model, rtol=1e-12)
+        v.prove("argument_of_a_substituted_expression.phase_in_" + label, not r, detail=r)
+
+
+@harness("C04", "unique_keys_below_arithmetic_nodes", functions=[ODE + ":get_odesys", ODE + ":get_odesys.<locals>._reg_unique", ODE + ":_create_odesys", "chempy.util._expr:Expr.all_unique_keys",
+                                                                "chempy.kinetics.rates:MassAction"], kind="data")
+def _(v):
+    """'parameter names matching parameter keys … keeping rate constants as free parameters, substituting variables, or using the alternative builder
+    changes only which symbols are free': the names of a rate expression are ALL the names in it, at whatever depth -- also those of a rate constant
+    that was scaled, divided or added up with the arithmetic of expressions (k/4, 2*k, kf/K, k1 + k2). Both builders declare exactly these names
+    when constants are kept free, each of them can be bound by a substitution, and every build is the same kinetic model.
+    2 A -> B, rate = k*[A]**2; kf = A_f*exp(-Ea_f/T) (defaults 2, 1200), K = A_K*exp(-Ea_K/T) (defaults 5, 300)"""
+    import sympy
+    from chempy.chemistry import Reaction
+    from chempy.reactionsystem import ReactionSystem
+    from chempy.kinetics.ode import get_odesys, _create_odesys
+    from chempy.kinetics.rates import MassAction, Arrhenius
+    mk = lambda param: ReactionSystem([Reaction({"A": 2}, {"B": 1}, param)], "A B")
+    sy = dict(backend=sympy)
+    kf = lambda: Arrhenius([2.0, 1200.0], unique_keys=("A_f", "Ea_f"))
+    K = lambda: Arrhenius([5.0, 300.0], unique_keys=("A_K", "Ea_K"))
+    arrh = lambda A_, E_, T: A_ * sympy.exp(-E_ / T)
+    shapes = (("divided_by_a_number", lambda: MassAction(kf()) / 4.0, lambda c, T: arrh(c["A_f"], c["Ea_f"], T) / 4.0, ["A_f", "Ea_f"]),
+              ("multiplied_by_a_number", lambda: MassAction(kf()) * 2.0, lambda c, T: arrh(c["A_f"], c["Ea_f"], T) * 2.0, ["A_f", "Ea_f"]),
+              ("divided_by_another_named_expression", lambda: MassAction(kf()) / K(), lambda c, T: arrh(c["A_f"], c["Ea_f"], T) / arrh(c["A_K"], c["Ea_K"], T), ["A_f", "Ea_f", "A_K", "Ea_K"]),
+              ("sum_of_two_named_expressions", lambda: MassAction(kf() + K()), lambda c, T: arrh(c["A_f"], c["Ea_f"], T) + arrh(c["A_K"], c["Ea_K"], T), ["A_f", "Ea_f", "A_K", "Ea_K"]))
+    defaults = {"A_f": 2.0, "Ea_f": 1200.0, "A_K": 5.0, "Ea_K": 300.0}
+    for label, make, k_of, keys in shapes:
+        try:
+            rs = mk(make())
+        except Exception as ex:
+            v.prove(label + ".set_up", False, detail=repr(ex)[:300])
+            continue
+        model = lambda consts: (lambda y, p, t: [-2 * k_of(consts(p), p["temperature"]) * y["A"] ** 2, k_of(consts(p), p["temperature"]) * y["A"] ** 2])
+        r = _native_mismatch(lambda: get_odesys(rs), ["A", "B"], ["temperature"], model(lambda p: defaults))
+        v.prove(label + ".inlined", not r, detail=r)
+        r = _native_mismatch(lambda: get_odesys(rs, include_params=False), ["A", "B"], ["temperature"] + keys, model(lambda p: p), unique={k_: defaults[k_] for k_ in keys})
+        v.prove(label + ".every_name_free", not r, detail=r)
+        r = _native_mismatch(lambda: _create_odesys(rs, rates_kw=sy), ["A", "B"], ["temperature"] + keys, model(lambda p: p))
+        v.prove(label + ".every_name_free.alternative_builder", not r, detail=r)
+        # each name on its own can be bound by a substitution (a name that IS in a rate expression is not 'unknown')
+        for key in keys:
+            r = _native_mismatch(lambda: get_odesys(rs, substitutions={key: 7.0}), ["A", "B"], ["temperature"], model(lambda p: dict(defaults, **{key: 7.0})))
+            v.prove("%s.%s_bound_by_a_substitution" % (label, key), not r, detail=r)
+        rest = keys[1:]
+        r = _native_mismatch(lambda: get_odesys(rs, substitutions={keys[0]: 7.0}, include_params=False), ["A", "B"], ["temperature"] + rest, model(lambda p: dict(p, **{keys[0]: 7.0})),
+                             unique={k_: defaults[k_] for k_ in rest})
+        v.prove(label + ".one_name_bound_the_others_free", not r, detail=r)
